@@ -319,6 +319,13 @@ func (x *Unit) resetForSecondPass() {
 	x.modStack = nil
 	x.newErrs, x.newCtxs = nil, nil
 	x.U.fresh = 0
+	// forget every declaration of the discovery pass (sorts are kept): names are re-issued, possibly at other sorts
+	x.U.decls = nil
+	x.U.declared = map[string]bool{}
+	x.U.strLits = map[string]string{}
+	x.U.axioms = nil
+	x.U.ifacePred = map[string]*types.Interface{}
+	x.U.ifaceName = map[string]string{}
 	x.loopStmtStack = nil
 	x.retOrd = 0
 	x.covers = nil
